@@ -298,7 +298,7 @@ class NetAddr():
             res += 4  # Element size bytes.
             if isinstance(e[0], str):  # message
                 res += self._calc_msg_dgram_size(e)
-            elif isinstance(e[0], (int, float)):  # bundle
+            elif isinstance(e[0], (int, float, type(None))):  # bundle
                 res += self._calc_bndl_dgram_size(e[1:])
             else:
                 raise ValueError(
@@ -307,16 +307,21 @@ class NetAddr():
         return res
 
     def _calc_msg_dgram_size(self, msg):
-        res = self._strpad4(len(bytes(msg[0], 'ascii')))  # Address.
+        res = self._strpad4(len(msg[0].encode('utf-8')))  # Address.
         res += self._strpad4(len(msg[1:]) + 1)  # Type tag string.
         for val in msg[1:]:
             if isinstance(val, str):
-                res += self._strpad4(len(val))
+                res += self._strpad4(len(val.encode('utf-8')))
             elif isinstance(val, (bytes, bytearray, memoryview)):
-                res += len(val) + 4  # Blob size bytes.
+                res += 4 + len(val) + (-len(val) % 4)  # Size bytes + padded blob.
             elif isinstance(val, list):
-                # Arrays are messages converted to blobs.
-                res += self._calc_msg_dgram_size(val) + 4  # Blob size bytes.
+                # Arrays are messages or bundles converted to blobs.
+                if not val:
+                    res += 4  # Empty lists are sent as 0.
+                elif isinstance(val[0], str):
+                    res += self._calc_msg_dgram_size(val) + 4  # Blob size bytes.
+                else:
+                    res += self._calc_bndl_dgram_size(val[1:]) + 4
             else:
                 res += 4  # Everything else (sent by sc3, no doubles).
         return res
